@@ -145,6 +145,17 @@ func vCheckRing(s *Session, reported []*HostInfo, rejected string, pre string) {
 		}
 	}
 	vAssert(noStale, pre+"/lookup-by-address-finds-only-known-nodes")
+	// a node reported down (and not announced up again since) stays in the ring but is neither pooled nor
+	// offered until it is connected again
+	var offered []*HostInfo
+	for _, h := range want {
+		cur := r.hosts[h.hostId]
+		if h.hostId == vRingDownOnly && cur != nil && cur.state == NodeDown {
+			continue // (a node that came back under another address was added anew and is up)
+		}
+		offered = append(offered, h)
+	}
+	want = offered
 	poolOK := len(vPoolHosts) == len(want)
 	for _, h := range want {
 		poolOK = poolOK && vPoolHosts[h.hostId]
@@ -164,7 +175,10 @@ func vCheckRing(s *Session, reported []*HostInfo, rejected string, pre string) {
 	vAssert(polOK, pre+"/policy-follows-the-ring")
 }
 
+var vRingDownOnly string
+
 func vh_refresh_history() {
+	vRingDownOnly = ""
 	rejected := ""
 	if vBool("filter") {
 		rejected = vIDs[vChoose("rejected", len(vIDs))]
@@ -177,6 +191,23 @@ func vh_refresh_history() {
 	err := refreshRing(rd)
 	vAssert(err == nil, "C16/refresh/first-succeeds")
 	vCheckRing(s, first, rejected, "C16/refresh1")
+	// between the refreshes a known node may go down and be announced up again (status events, each in a
+	// burst of its own): it is then pooled and offered again while still marked down (until it connects)
+	if vBound("flap") == 1 && n1 > 0 && vBool("a_node_flaps_between_the_refreshes") {
+		h := first[vChoose("flapping", n1)]
+		addr := h.peer
+		if addr == nil {
+			addr = h.connectAddress
+		}
+		s.handleNodeEvent([]frame{&statusChangeEventFrame{change: "DOWN", host: addr, port: 9042}})
+		if h.hostId != rejected {
+			vRingDownOnly = h.hostId
+		}
+		if vBool("and_is_announced_up_again") {
+			s.handleNodeEvent([]frame{&statusChangeEventFrame{change: "UP", host: addr, port: 9042}})
+			vRingDownOnly = ""
+		}
+	}
 	n2 := vChoose("n2", vBound("hosts")+1)
 	vReported = vReport(n2)
 	second := vReported
